@@ -1767,12 +1767,19 @@ class Rule(metaclass=LogicalType):
                 return value
 
         if cls.__args_parser__:
-            value = cls.__args_parser__(value, context)
+            try:
+                value = cls.__args_parser__(value, context)
 
-            if not cls.__abstract__ and type(value) != cls.__origin__:
-                # for abstract types (like Sequence / Iterable)
-                # we just give an instance that satisfy those abstract methods (like a list instance)
-                value = cls.__origin__(value)
+                if not cls.__abstract__ and type(value) != cls.__origin__:
+                    # for abstract types (like Sequence / Iterable)
+                    # we just give an instance that satisfy those abstract methods (like a list instance)
+                    value = cls.__origin__(value)
+            except exc.ParseError:
+                raise
+            except Exception as e:
+                # whatever going through the value raised (its own iteration, an unhashable element for a set):
+                # the value does not parse
+                context.handle_error(exc.ParseError(origin_exc=e), force_raise=True)
 
         if not options.ignore_constraints:
             # if options ignore constraints, we will just do type transform
